@@ -121,11 +121,29 @@ func concretise(a Answer, prefix string, variant int) map[string]interface{} {
 		if perms == nil {
 			perms = []string{}
 		}
-		auths = append(auths, map[string]interface{}{
-			"topic": pattern(prefix, z.Tp, variant), "channels": chans, "permissions": perms})
+		// "nothing" has three spellings in JSON: an empty list, null, and no key at all (what a server written in Go with
+		// omitempty sends); each answer stands alone, so all three say the same
+		au := map[string]interface{}{"topic": pattern(prefix, z.Tp, variant)}
+		empty := func(key string, n int, v interface{}) {
+			switch {
+			case n > 0 || (variant/2)%3 == 0:
+				au[key] = v
+			case (variant/2)%3 == 1:
+				au[key] = nil
+			}
+		}
+		empty("channels", len(chans), chans)
+		empty("permissions", len(perms), perms)
+		auths = append(auths, au)
 	}
-	return map[string]interface{}{"ttl": a.TTL, "authorizations": auths, "identity": "id-" + prefix,
-		"identity_url": "http://example.invalid/" + prefix}
+	ans := map[string]interface{}{"ttl": a.TTL, "identity": "id-" + prefix, "identity_url": "http://example.invalid/" + prefix}
+	switch {
+	case len(auths) > 0 || (variant/3)%3 == 0:
+		ans["authorizations"] = auths
+	case (variant/3)%3 == 1:
+		ans["authorizations"] = nil
+	}
+	return ans
 }
 
 func (s *Stub) handle(w http.ResponseWriter, r *http.Request) {
